@@ -684,16 +684,128 @@ def extract_copy_guards(repo: Path):
     return out
 
 
+# C08 (purity, round 4): EVERY call of a native kernel that overwrites one of its array arguments, with the provenance of
+# the buffer the wrapper hands over (scanned over all of mahotas/*.py, mahotas/features/*.py: a new call site appears here
+# by itself)
+
+INPLACE_NATIVE = {            # native function -> index of the argument it overwrites
+    '_morph.subm': 0, '_labeled.label': 0, '_labeled.relabel': 0, '_labeled.remove_regions': 0, '_labeled.slic': 1,
+    '_distance.dt': 0, '_interpolate.spline_filter1d': 0, '_surf.integral': 0, '_thin.thin': 0,
+    '_convolve.haar': 0, '_convolve.ihaar': 0, '_convolve.daubechies': 0, '_convolve.idaubechies': 0,
+    '_convolve.wavelet': 0, '_convolve.iwavelet': 0}
+FRESH_CALLS = {'zeros', 'empty', 'ones', 'full', 'copy', 'astype', 'array', 'zeros_like', 'empty_like', 'ones_like', 'full_like',
+               'arange', 'reshape'}
+VIEW_CALLS = {'moveaxis', 'transpose', 'swapaxes'}
+
+
+def _provenance(expr, fn, before_line, depth=0):
+    """where does the array `expr` (evaluated before line `before_line` of function `fn`) come from?
+    fresh | out | guarded:<helper> | flag:<flag> | param:<name> | unknown:<src>"""
+    if depth > 14:
+        return 'unknown:depth'
+    if isinstance(expr, ast.Subscript):
+        return _provenance(expr.value, fn, before_line, depth + 1)
+    if isinstance(expr, ast.IfExp):            # `a if c else b`: both alternatives must be harmless
+        pa = _provenance(expr.body, fn, before_line, depth + 1)
+        pb = _provenance(expr.orelse, fn, before_line, depth + 1)
+        if pa == pb:
+            return pa
+        bad = [x for x in (pa, pb) if not (x in ('fresh', 'out') or x.startswith('guarded:') or x.startswith('flag:'))]
+        return bad[0] if bad else pa
+    if isinstance(expr, ast.Attribute) and expr.attr == 'T':
+        return _provenance(expr.value, fn, before_line, depth + 1)
+    if isinstance(expr, ast.Call):
+        name = getattr(expr.func, 'attr', None) or getattr(expr.func, 'id', None)
+        if name in VIEW_CALLS and expr.args:
+            return _provenance(expr.args[0], fn, before_line, depth + 1)
+        if name == 'reshape' and isinstance(expr.func, ast.Attribute):
+            return _provenance(expr.func.value, fn, before_line, depth + 1)
+        if name in FRESH_CALLS:
+            return 'fresh'
+        if name == '_get_output':
+            return 'out'
+        if name in ('_wavelet_array', '_as_labeled'):
+            return 'guarded:' + name
+        return 'unknown:' + _src(expr)[:40]
+    if isinstance(expr, ast.Name):
+        params = [a.arg for a in fn.args.args]
+        assigns = []
+        for n in ast.walk(fn):
+            if isinstance(n, ast.Assign) and n.lineno < before_line:
+                for t in n.targets:
+                    if isinstance(t, ast.Name) and t.id == expr.id:
+                        assigns.append(n)
+                    elif isinstance(t, ast.Tuple) and isinstance(n.value, ast.Tuple) and len(t.elts) == len(n.value.elts):
+                        # `a, b = x, y`: element-wise
+                        for te, ve in zip(t.elts, n.value.elts):
+                            if isinstance(te, ast.Name) and te.id == expr.id:
+                                fake = ast.Assign(targets=[te], value=ve)
+                                fake.lineno = n.lineno
+                                assigns.append(fake)
+        if not assigns:
+            return ('param:' + expr.id) if expr.id in params else 'unknown:' + expr.id
+        # an assignment under `if not <flag>:` leaves the parameter untouched when the flag is set: that is the documented
+        # in-place switch (the copy-guard table above says what happens when it is not set)
+        guarded = []
+        for n in ast.walk(fn):
+            if isinstance(n, ast.If) and isinstance(n.test, ast.UnaryOp) and isinstance(n.test.op, ast.Not) \
+                    and isinstance(n.test.operand, ast.Name):
+                inside = {id(x) for st in n.body for x in ast.walk(st)}
+                if all(id(a_) in inside for a_ in assigns) and expr.id in params:
+                    guarded.append(n.test.operand.id)
+        if guarded:
+            return 'flag:' + guarded[0]
+        last = max(assigns, key=lambda n: n.lineno)
+        pv = _provenance(last.value, fn, last.lineno, depth + 1)
+        return pv
+    return 'unknown:' + _src(expr)[:40]
+
+
+def extract_inplace_sites(repo: Path):
+    import warnings
+    out = []
+    files = sorted((repo / 'mahotas').glob('*.py')) + sorted((repo / 'mahotas' / 'features').glob('*.py'))
+    for f in files:
+        with warnings.catch_warnings():
+            warnings.simplefilter('ignore')
+            tree = ast.parse(f.read_text())
+        mod = str(f.relative_to(repo / 'mahotas'))[:-3].replace('/', '.')
+        for fn in [n for n in ast.walk(tree) if isinstance(n, ast.FunctionDef)]:
+            for call in [n for n in ast.walk(fn) if isinstance(n, ast.Call)]:
+                if isinstance(call.func, ast.Attribute) and isinstance(call.func.value, ast.Name):
+                    key = call.func.value.id + '.' + call.func.attr
+                    if key in INPLACE_NATIVE and len(call.args) > INPLACE_NATIVE[key]:
+                        out.append((f'{mod}.{fn.name}', key, _provenance(call.args[INPLACE_NATIVE[key]], fn, call.lineno)))
+                elif isinstance(call.func, ast.Name) and call.func.id == '_thin' and len(call.args) >= 2:
+                    # `from ._thin import thin as _thin`: both the padded image and the scratch buffer are overwritten
+                    for idx in (0, 1):
+                        out.append((f'{mod}.{fn.name}', f'_thin.thin[{idx}]', _provenance(call.args[idx], fn, call.lineno)))
+    if len(out) < 10:
+        raise TranslationError(f'only {len(out)} in-place native call sites found (the wrappers no longer call them by these names)')
+    return sorted(set(out))
+
+
 def generate_copy_guards(repo: Path, outdir: Path) -> dict:
     sites = extract_copy_guards(repo)
+    inplace = extract_inplace_sites(repo)
     s = ['/- GENERATED by translator/tables.py (generate_copy_guards) from the current /repo sources. Do not edit. -/',
          'namespace Mahotas.Generated', '',
          '/-- (wrapper, flag, numpy calls that produce the array handed to the in-place kernel when the flag is false) -/',
          'def copyGuards : List (String × String × List String) := [' +
          ', '.join('("%s", "%s", [%s])' % (a, b, ', '.join('"%s"' % x for x in c)) for a, b, c in sites) + ']',
+         '',
+         '/-- every call of a native kernel that overwrites an array argument: (wrapper, native function, provenance of the',
+         'buffer handed over, detail): `fresh` = allocated/copied in the wrapper, `out` = result of `_get_output`, `guarded` + helper =',
+         'through that copy-guard helper of `copyGuards`, `flag` + name = the parameter itself unless copied under `if not <name>`,',
+         '`param`/`unknown` = anything else) -/',
+         'def inplaceSites : List (String × String × String × String) := [' +
+         ', '.join('("%s", "%s", "%s", "%s")' % (w, k, pv.split(':', 1)[0],
+                                                (w.rsplit('.', 1)[0] + '.' + pv.split(':', 1)[1]) if pv.startswith('guarded:')
+                                                else (pv.split(':', 1)[1] if ':' in pv else ''))
+                   for w, k, pv in inplace) + ']',
          '', 'end Mahotas.Generated', '']
     changed = _write_if_changed(outdir / 'CopyGuards.lean', '\n'.join(s))
-    return dict(copy_guards_changed=changed, copy_guards=len(sites))
+    return dict(copy_guards_changed=changed, copy_guards=len(sites), inplace_sites=len(inplace))
 
 
 def lean_list(xs):
